@@ -45,7 +45,7 @@ from spyne.model import ModelBase, XmlAttribute, Array, Null, \
     ByteArray, File, ComplexModelBase, AnyXml, AnyHtml, Unicode, String, \
     Decimal, Double, Integer, Time, DateTime, Uuid, Date, Duration, Boolean, Any
 
-from spyne.error import ValidationError
+from spyne.error import ValidationError, Fault
 
 from spyne.model.binary import binary_decoding_handlers, BINARY_ENCODING_USE_DEFAULT
 
@@ -232,7 +232,7 @@ class InProtocolBase(ProtocolMixin):
             return None
 
         handler = self._from_bytes_handlers[class_]
-        return handler(class_, string, *args, **kwargs)
+        return self._call_leaf_handler(handler, class_, string, args, kwargs)
 
     def from_unicode(self, class_, string, *args, **kwargs):
         if string is None:
@@ -250,7 +250,23 @@ class InProtocolBase(ProtocolMixin):
             return None
 
         handler = self._from_unicode_handlers[class_]
-        return handler(class_, string, *args, **kwargs)
+        return self._call_leaf_handler(handler, class_, string, args, kwargs)
+
+    @staticmethod
+    def _call_leaf_handler(handler, class_, string, args, kwargs):
+        """Values that can't be parsed are the sender's fault: whatever the
+        parsing code chokes on is reported as a validation error."""
+
+        try:
+            return handler(class_, string, *args, **kwargs)
+
+        except Fault:
+            raise
+
+        except (ValueError, TypeError, AttributeError, ArithmeticError,
+                                                          LookupError) as e:
+            logger.debug("%r: %r", class_, e)
+            raise ValidationError(string)
 
     def null_from_bytes(self, cls, value):
         return None
